@@ -16,8 +16,20 @@ import (
 var ErrParse = errors.New("parser")
 
 // Parse parses path.
-func Parse(path string) (*ast.AST, error) {
+//
+//nolint:nonamedreturns
+func Parse(path string) (tree *ast.AST, err error) {
 	lexer := newLexer(path)
+
+	// The ast constructors called by the grammar panic on values they cannot
+	// represent, such as an integer literal out of the int64 range. Report
+	// such a panic as a parse error.
+	defer func() {
+		if r := recover(); r != nil {
+			tree, err = nil, fmt.Errorf("%w: %v at %v", ErrParse, r, lexer.pos())
+		}
+	}()
+
 	_ = pathParse(lexer)
 
 	if len(lexer.errors) > 0 {
